@@ -18,6 +18,16 @@
            | R <param> <rc> <o> <k> <u> | C <src> <u> | M <a|c|i> <p> <d>
            | H <param> <rc> <o<i>|h<j>> | S <a|c|i> <h> <m> <u> | X <h> <v> ... | Q <pc> <src> | E <h>
      src  := &o<i> | &s<i>.<k> | =<q>
+     psites   - one line per check site of the access-path machine (coq/C09/Paths.v):
+                  PSITE <name> chk=<0|1> exec=<0|1> <pscript> spec=<outcome> mech=<outcome> twin=<pscript>
+     puniverse - every case of the path universe (coq/C09/PathModel.v: 8 graphs x const placements x cells / nodes x forms):
+                  PCASE <graph> <placement> <set|sub> exec=<0|1> <pscript> spec=<outcome> mech=<outcome>
+     prun     - stdin: one pscript per line; for each: PSPEC / PMECH / PFREE <outcome> <psnap> ... (one psnap per accepted
+                op), with argv.(2) = "<checked site,...>" also POBS, then PINFO <start psnap> <exec flag per op, 0/1 ...>
+   pscript  := <var>;<var>;... | <pop>;<pop>;...
+     var    := <const 0/1> <tree>        tree := L<z> | R(<c><tree>,...) | A(<c><tree>,...)   c = const flag of the child 0/1
+     pop    := S <x>:<path> <s|o|i> <u>  |  B <x>:<path> <lit 0/1> <tree>          path := - | <i>.<j>.<k> (child indices)
+   psnap    := <cells of var 0 ,-separated>/<var 1>/...
    outcome := done | rej:<i>:<site> | stuck:<i>
    snap    := <vals of obj 0 ,-separated>/<obj 1>/...#<tgt of ptr 0>,<ptr 1>,...      (one per accepted op) *)
 open C09_model
@@ -159,6 +169,105 @@ let path_s = function
   | PMemberSt -> "memberst" | PDerefSt -> "deref" | PArrowSt -> "arrow" | PRefParam -> "refparam"
   | PAddrDecl -> "addr_decl" | PAddrAsg -> "addr_asg" | PLocalRef -> "localref"
 
+
+(* ---------- access-path machine (coq/C09/Paths.v) ---------- *)
+let sform_s = function FSet -> "set" | FOp -> "op" | FInc -> "inc"
+let pcls_s = function CElem -> "Elem" | CDirect -> "Direct" | CDirectElem -> "DirectElem" | CChain -> "Chain"
+                    | CRootIdx -> "RootIdx" | CMidIdx -> "MidIdx" | COther -> "Other"
+let skind_s = function SkWhole -> "Whole" | SkMember -> "Member" | SkMemberElem -> "MemberElem" | SkRootElem -> "RootElem"
+                     | SkDeep -> "Deep"
+let sreason_s = function RRoot -> "Root" | REdge -> "Edge" | RInStruct -> "InStruct" | RInPlain -> "InPlain"
+let psite_s = function
+  | PRoot (c, f) -> "Root." ^ pcls_s c ^ "." ^ sform_s f
+  | PLast (c, f) -> "Last." ^ pcls_s c ^ "." ^ sform_s f
+  | PInner c -> "Inner." ^ pcls_s c
+  | PSub (k, l, r) -> "Sub." ^ skind_s k ^ "." ^ (if l then "lit" else "var") ^ "." ^ sreason_s r
+let rec tree_s = function
+  | TLeaf z -> "L" ^ zi z
+  | TRec f -> "R(" ^ forest_s f ^ ")"
+  | TArr f -> "A(" ^ forest_s f ^ ")"
+and forest_s f =
+  let rec go = function FNil -> [] | FCons (c, t, r) -> (s01 c ^ tree_s t) :: go r in
+  String.concat "," (go f)
+(* recursive-descent parser over a string with a cursor *)
+let parse_tree (s : string) : tree =
+  let pos = ref 0 in
+  let peek () = if !pos < String.length s then s.[!pos] else '\000' in
+  let adv () = incr pos in
+  let rec tree () =
+    match peek () with
+    | 'L' -> adv ();
+        let st = !pos in
+        if peek () = '-' then adv ();
+        while (match peek () with '0' .. '9' -> true | _ -> false) do adv () done;
+        TLeaf (z_of_int (int_of_string (String.sub s st (!pos - st))))
+    | 'R' -> adv (); adv (); let f = forest () in adv (); TRec f
+    | 'A' -> adv (); adv (); let f = forest () in adv (); TArr f
+    | c -> failwith (Printf.sprintf "tree: unexpected %c at %d in %s" c !pos s)
+  and forest () =
+    if peek () = ')' then FNil
+    else begin
+      let c = (peek () = '1') in adv ();
+      let t = tree () in
+      if peek () = ',' then (adv (); FCons (c, t, forest ())) else FCons (c, t, FNil)
+    end in
+  let t = tree () in
+  if !pos <> String.length s then failwith ("tree: trailing input in " ^ s);
+  t
+let path_of_s s = if s = "-" then [] else List.map n (split '.' s)
+let path_s' p = if p = [] then "-" else String.concat "." (List.map ni p)
+let pvar_of s =
+  match words s with
+  | [c; t] -> { vconst = b01 c; vtree = parse_tree t }
+  | _ -> failwith ("pvar " ^ s)
+let pvar_s v = s01 v.vconst ^ " " ^ tree_s v.vtree
+let sform_of = function "s" -> FSet | "o" -> FOp | "i" -> FInc | s -> failwith ("sform " ^ s)
+let sform_c = function FSet -> "s" | FOp -> "o" | FInc -> "i"
+let target_of st s =
+  match split ':' s with
+  | [x; p] ->
+      let x = n x and p = path_of_s p in
+      let t = (match List.nth_opt st (int_of_nat x) with Some v -> v.vtree | None -> failwith "no such variable") in
+      lv_of x p t
+  | _ -> failwith ("target " ^ s)
+let pop_of st s =
+  match words s with
+  | ["S"; tg; f; u] -> OSet (target_of st tg, sform_of f, zz u)
+  | ["B"; tg; l; t] -> OSub (target_of st tg, b01 l, parse_tree t)
+  | _ -> failwith ("pop " ^ s)
+let pop_s = function
+  | OSet (e, f, u) -> Printf.sprintf "S %s:%s %s %s" (ni (root_of e)) (path_s' (lpath e)) (sform_c f) (zi u)
+  | OSub (e, l, t) -> Printf.sprintf "B %s:%s %s %s" (ni (root_of e)) (path_s' (lpath e)) (s01 l) (tree_s t)
+let pscript_of line =
+  match split '|' line with
+  | [vs; ops] ->
+      let st = List.map (fun x -> pvar_of (String.trim x)) (items vs) in
+      (st, List.map (fun x -> pop_of st (String.trim x)) (items ops))
+  | _ -> failwith "pscript"
+let pscript_s (st, ops) = String.concat ";" (List.map pvar_s st) ^ "|" ^ String.concat ";" (List.map pop_s ops)
+let psnap_s st = String.concat "/" (List.map (fun v -> String.concat "," (List.map zi (cells v.vtree))) st)
+let poutcome_s = function
+  | PDone -> "done"
+  | PRejectedAt (i, st) -> "rej:" ^ ni i ^ ":" ^ psite_s st
+  | PStuckAt i -> "stuck:" ^ ni i
+(* can the implementation execute this store at all (on a non-const object)? *)
+let pop_exec st = function
+  | OSet (e, f, _) ->
+      (match List.nth_opt st (int_of_nat (root_of e)) with
+       | Some v -> exec_set (classify (steps (lpath e) v.vtree)) f
+       | None -> false)
+  | OSub (e, l, _) ->
+      (match List.nth_opt st (int_of_nat (root_of e)) with
+       | Some v -> (match get (lpath e) v.vtree with
+                    | Some sub -> exec_sub (sclassify (steps (lpath e) v.vtree) sub) l
+                    | None -> false)
+       | None -> false)
+let pfree : psite -> bool = fun _ -> false
+let groot_s = function UO -> "O" | UN -> "N" | UI -> "I" | UNs -> "Ns" | UIs -> "Is" | UQ -> "Q" | UI2 -> "I2" | UInts -> "Ints"
+let gflag_s = function GV -> "I.v" | GIn -> "N.in" | GN -> "N.n" | GK -> "O.k" | GA -> "O.a" | GOin -> "O.in"
+                     | GItems -> "O.items" | GQ -> "Q.in"
+let placement_s = function PlNone -> "none" | PlRoot -> "root" | PlMember g -> gflag_s g
+
 let free = { chk = (fun _ -> false); eff = (fun _ -> true) }
 
 let () =
@@ -194,6 +303,45 @@ let () =
           line "ptr" (Printf.sprintf "%s%s:%s:%s" (bs cst) (root_s r) (links_s (fun (md, pc) -> md_s md ^ bs pc) ls) (pform_s f))
             (ptr_chain cst r ls f) (chain_expect cst (List.map snd ls)))
         (proot_forms r)) all_proots) [true; false]) (lists_upto ptr_alpha (depth 4))
+  | "psites" ->
+      List.iter (fun st ->
+        if site_occurs st then begin
+          let (s0, ops) = pwitness st in
+          let oc pol = poutcome_s (snd (prun pol s0 ops)) in
+          Printf.printf "PSITE\t%s\tchk=%s\texec=%s\t%s\tspec=%s\tmech=%s\t%s\n" (psite_s st) (s01 (pmech st))
+            (s01 (List.for_all (pop_exec s0) ops)) (pscript_s (s0, ops)) (oc pspec) (oc pmech) (pscript_s (ptwin st))
+        end) all_psites
+  | "puniverse" ->
+      List.iter (fun g -> List.iter (fun pl ->
+          let line kind (s0, o) =
+            let oc pol = poutcome_s (snd (prun pol s0 [o])) in
+            Printf.printf "PCASE\t%s\t%s\t%s\texec=%s\t%s\tspec=%s\tmech=%s\n" (groot_s g) (placement_s pl) kind
+              (s01 (pop_exec s0 o)) (pscript_s (s0, [o])) (oc pspec) (oc pmech) in
+          List.iter (line "set") (set_cases g pl);
+          List.iter (line "sub") (sub_cases g pl)) (placements g)) all_groots
+  | "prun" ->
+      let obs =
+        if Array.length Sys.argv > 2 then
+          let cs = split ',' Sys.argv.(2) in [("POBS", (fun st -> List.mem (psite_s st) cs))]
+        else [] in
+      (try
+         while true do
+           let line = input_line stdin in
+           if String.trim line <> "" then begin
+             (try
+                let (s0, ops) = pscript_of line in
+                List.iter (fun (name, pol) ->
+                  let (_, oc) = prun pol s0 ops in
+                  print_string (name ^ " " ^ poutcome_s oc);
+                  List.iter (fun st -> print_string (" " ^ psnap_s st)) (ptrace pol s0 ops);
+                  print_newline ()) ([("PSPEC", pspec); ("PMECH", pmech); ("PFREE", pfree)] @ obs);
+                (* the exec flag of each op is judged in the state of the FREE run (shapes never change) *)
+                print_endline ("PINFO " ^ psnap_s s0 ^ " " ^ String.concat "" (List.map (fun o -> s01 (pop_exec s0 o)) ops))
+              with Failure m -> print_endline ("ERROR " ^ m)
+                 | Invalid_argument m -> print_endline ("ERROR " ^ m))
+           end
+         done
+       with End_of_file -> ())
   | "sites" ->
       List.iter (fun st ->
         let w = witness st in
